@@ -10,6 +10,7 @@ package main
 import (
 	"bufio"
 	"fmt"
+	"io"
 	"net"
 	"net/http"
 	"os"
@@ -17,6 +18,7 @@ import (
 	"runtime"
 	"sort"
 	"strings"
+	"sync"
 	"sync/atomic"
 	"time"
 
@@ -180,6 +182,39 @@ func init() {
 	}})
 }
 
+// verif_hold: a handler for /slow that reports its entry, waits for its release and then answers 200 "slow-done".
+var (
+	holdEntered = make(chan struct{}, 16)
+	holdRelease = make(chan struct{})
+	holdMu      sync.Mutex
+)
+
+type holdHandler struct{ next httpserver.Handler }
+
+func (h holdHandler) ServeHTTP(w http.ResponseWriter, r *http.Request) (int, error) {
+	if r.URL.Path != "/slow" {
+		return h.next.ServeHTTP(w, r)
+	}
+	holdMu.Lock()
+	rel := holdRelease
+	holdMu.Unlock()
+	holdEntered <- struct{}{}
+	<-rel
+	w.WriteHeader(200)
+	w.Write([]byte("slow-done"))
+	return 0, nil
+}
+
+func init() {
+	httpserver.RegisterDevDirective("verif_hold", "")
+	casket.RegisterPlugin("verif_hold", casket.Plugin{ServerType: "http", Action: func(c *casket.Controller) error {
+		for c.Next() {
+		}
+		httpserver.GetConfig(c).AddMiddleware(func(next httpserver.Handler) httpserver.Handler { return holdHandler{next} })
+		return nil
+	}})
+}
+
 func listenFDs(port int) int { return kit.ListeningFDs()[port] }
 
 func probe(port int) string { return probeAt("", port) }
@@ -214,7 +249,7 @@ func keys(m map[string]bool) []string {
 
 func main() {
 	rep := kit.NewReport("C07", "model_checking",
-		"(1) two clients (one per listen address) x every non-decreasing placement of dial / send / receive over 6 positions of a reload (before, old OnRestart, new OnStartup, new listener about to serve, old OnShutdown, after return) - all 56 placements for each client (3136 pairs) - x 5 reload kinds (ok, failing at parse, setup, startup callback, listen), on a real casket.Start/Instance.Restart over loopback sockets; every client must receive one complete response from the old or the new configuration (new if it dialled after a successful return, old after a failed reload), and after every execution the descriptors of the listening sockets and fresh probes must show exactly the expected configuration; (2) two reloads in a row (pairs of kinds; quick: 4 pairs of kinds and 3 straddling plans, thorough: all 25 pairs and 6 straddling plans) with one client at every placement over the 11 positions and the other straddling both reloads: a client must be answered by a configuration in force between its dial and its answer; (3) a site on an ephemeral port (:0) through 5 sequences of reloads: the port picked at start keeps answering; (4) reloads of an unchanged Casketfile text whose imported file or environment value changed; (5) reloads that change the addresses a site binds on one port; distinct_nontrivial = outcome classes")
+		"(1) two clients (one per listen address) x every non-decreasing placement of dial / send / receive over 6 positions of a reload (before, old OnRestart, new OnStartup, new listener about to serve, old OnShutdown, after return) - all 56 placements for each client (3136 pairs) - x 5 reload kinds (ok, failing at parse, setup, startup callback, listen), on a real casket.Start/Instance.Restart over loopback sockets; every client must receive one complete response from the old or the new configuration (new if it dialled after a successful return, old after a failed reload), and after every execution the descriptors of the listening sockets and fresh probes must show exactly the expected configuration; (2) two reloads in a row (pairs of kinds; quick: 4 pairs of kinds and 3 straddling plans, thorough: all 25 pairs and 6 straddling plans) with one client at every placement over the 11 positions and the other straddling both reloads: a client must be answered by a configuration in force between its dial and its answer; (3) a site on an ephemeral port (:0) through 5 sequences of reloads: the port picked at start keeps answering; (4) reloads of an unchanged Casketfile text whose imported file or environment value changed; (5) reloads that change the addresses a site binds on one port; (6) a reload while a request is still being handled, with a grace period of zero and of 40 ms; distinct_nontrivial = outcome classes")
 	if !rep.IsWorker() {
 		rep.Assume("interleavings inside net/http's accept/serve loops and the kernel backlog are not enumerated (whoever accepts serves its own configuration); client steps run while the reload is held inside its own callbacks")
 		rep.RunWorkers(16)
@@ -636,6 +671,68 @@ func main() {
 			}
 			rep.Class("bind-hosts/" + strings.Join(seq, " -> "))
 		}
+	}
+	// (6) a request whose handler is still running when the old instance is stopped, with a grace period of zero and with the
+	// usual one: the reload succeeds, new connections get the new configuration, and the held request still gets its complete
+	// answer from the old one
+	if next() {
+		cfgH := func(v int) string {
+			return fmt.Sprintf("127.0.0.1:%d {\n\theader / X-V v%d\n\tstatus 204 /ok\n\tverif_hold\n}\n", p0, v)
+		}
+		for _, grace := range []time.Duration{0, 40 * time.Millisecond} {
+			httpserver.GracefulTimeout = grace
+			holdMu.Lock()
+			holdRelease = make(chan struct{})
+			holdMu.Unlock()
+			reloading = false
+			inst, err := casket.Start(casket.CasketfileInput{Contents: []byte(cfgH(1)), Filepath: filepath.Join(dir, "Casketfile"), ServerTypeName: "http"})
+			if err != nil {
+				rep.Broken("held request: start: %v", err)
+			}
+			var problems []string
+			conn, err := net.DialTimeout("tcp", fmt.Sprintf("127.0.0.1:%d", p0), 3*time.Second)
+			if err != nil {
+				rep.Broken("held request: dial: %v", err)
+			}
+			conn.SetDeadline(time.Now().Add(30 * time.Second))
+			conn.Write([]byte("GET /slow HTTP/1.1\r\nHost: 127.0.0.1\r\nConnection: close\r\n\r\n"))
+			select {
+			case <-holdEntered:
+			case <-time.After(10 * time.Second):
+				rep.Broken("held request: the handler was not entered")
+			}
+			ni, rerr := inst.Restart(casket.CasketfileInput{Contents: []byte(cfgH(2)), Filepath: filepath.Join(dir, "Casketfile"), ServerTypeName: "http"})
+			if rerr != nil {
+				problems = append(problems, fmt.Sprintf("reload/ok: Restart returned error=%v", rerr))
+			} else {
+				inst = ni
+			}
+			if got := probe(p0); rerr == nil && got != "204 v2" {
+				problems = append(problems, fmt.Sprintf("probe-after-reload: a fresh connection after the reload answered %q, want \"204 v2\"", got))
+			}
+			holdMu.Lock()
+			close(holdRelease)
+			holdMu.Unlock()
+			resp, err := http.ReadResponse(bufio.NewReader(conn), nil)
+			if err != nil {
+				problems = append(problems, "request-in-flight-dropped: the request that was being handled when the old instance was stopped got no answer: "+err.Error())
+			} else {
+				body, _ := io.ReadAll(resp.Body)
+				resp.Body.Close()
+				if resp.StatusCode != 200 || string(body) != "slow-done" || resp.Header.Get("X-V") != "v1" {
+					problems = append(problems, fmt.Sprintf("request-in-flight-answered-wrongly: status %d X-V %q body %q, want 200 v1 slow-done", resp.StatusCode, resp.Header.Get("X-V"), body))
+				}
+			}
+			conn.Close()
+			rep.Eval(1)
+			transitions += 3
+			casket.Stop()
+			if len(problems) > 0 {
+				rep.Violation("C07/held-request/"+strings.SplitN(problems[0], ":", 2)[0], fmt.Sprintf("grace period %v: %s", grace, strings.Join(problems, "; ")), c07case{fmt.Sprintf("ok, grace=%v", grace), nil, nil, nil, strings.Join(problems, "; ")})
+			}
+			rep.Class(fmt.Sprintf("held-request/grace=%v", grace))
+		}
+		httpserver.GracefulTimeout = 40 * time.Millisecond
 	}
 	rep.AddInt("states", int64(len(states)))
 	rep.AddInt("transitions", transitions)
